@@ -38,11 +38,11 @@ MANIFEST = {
                   "C04_info_total / C04_info_decoded_total (C04InfoModel.v: getInfoLevel over token lists and the Info bodies of stsc trun senc tfra sidx saiz ctts stts sbgp saio stsz stss stco co64 elst sdtp subs as the Go loops with partial index "
                   "expressions over states that keep parallel slices as separate lengths): for EVERY state whose lengths are related as the decoders relate them (C04_info_decoded_wf: the state DecodeBox / DecodeBoxSR leave, through the prologue models) "
                   "and EVERY level (any int from any specificBoxLevels token list) Info returns and writes at most Size()+1030 lines; without the relations the loops index out of range at level >= 1 (C04_info_wf_needed; stts exactly when "
-                  "SampleTimeDelta is the shorter slice); C04_tree_alloc_unguarded: sidx, subs and pssh as leaves of the tree theorem with END-POSITION and Size() models (no size guard: on the SliceReader path they read beyond the box and report a Size() "
+                  "SampleTimeDelta is the shorter slice); C04_info_senc_parsed_total: the state ParseReadBox / parseAndFillSamples leave after the second pass (IV size given, inferred or tried as 0 / 8 / 16) satisfies those relations - "
+                  "derived from the fill loop by induction - so a parsed senc prints at every level; C04_tree_alloc_unguarded: sidx, subs and pssh as leaves of the tree theorem with END-POSITION and Size() models (no size guard: on the SliceReader path they read beyond the box and report a Size() "
                   "computed from the content): an accepted box costs <= 6 per byte consumed, a rejected one <= 6 per byte seen + 1114095 (a 32-byte sidx announcing 65535 references appends 1 MiB before it returns the error; paid once, the error ends the "
                   "decode), so for EVERY byte string below 32 GiB the decode over trees with all 17 table leaves returns with bytes requested and iterations each <= 2600*len+1200040 (SliceReader) / 2601*len+1200071 (io.Reader): two-constant leaf contract, both child loops re-proved. "
                   "EXPLORED only: the other ~100 leaf decoder bodies, all encoder bodies, the Info bodies of the other box types (sgpd pssh ssix leva and the non-table boxes) and the Info traversal of containers, "
-                  "Info of a senc parsed by the second pass (C04_info_senc_parsed_partial: the relations between len(IVs), len(SubSamples) and the data are checked at run time on the state computed from senc_parse, not derived from parseAndFillSamples), "
                   "sgpd and the other unguarded table boxes as leaves of a tree (their prologues are proved per box only), the value-dependent tails of ssix/leva, "
                   "real wall-clock time and real heap (the model's ticks are "
                   "not seconds): structured mutation fuzzing of all testdata files and boxes, and count/length-field inflation (0, 1, exact, "
